@@ -11,6 +11,7 @@ the source, where both call `check_inputs`); the harness calls both on every inp
 import TzVerif.Model.TimeZone
 import TzVerif.Spec.Zone
 import TzVerif.Proofs.ZoneNew
+import TzVerif.Proofs.SrcEqZone
 
 namespace TzVerif.C13
 open TzVerif.Model
@@ -77,5 +78,19 @@ example :
     let z : TimeZone := { transitions := [⟨100, 0⟩, ⟨200, 0⟩], localTimeTypes := [t0],
                           leapSeconds := [⟨78796800, 1⟩, ⟨78796800 + 2419199, 2⟩], extraRule := some (.fixed t0) }
     z.checkInputs = .ok () := by decide +kernel
+
+/-! ### The same about the source text
+`TzVerif.Src.*` is the Rust source translated to Lean on every run (tools/rs2lean.py, DESIGN §13); the
+equalities below tie every theorem of this file, which is about the model, to the code as it is now. -/
+
+theorem translated_source_is_the_model :
+    (∀ z : TimeZone, Proofs.SrcEq.CorrectionsI32 z.leapSeconds → Src.TimeZoneRef.check_inputs z = z.checkInputs) ∧
+    (∀ ts tys ls r, Proofs.SrcEq.CorrectionsI32 ls → Src.TimeZoneRef.new ts tys ls r = TimeZone.new ts tys ls r) :=
+  ⟨Proofs.SrcEq.check_inputs_eq, Proofs.SrcEq.zone_new_eq⟩
+
+/-- `accepts_iff` about the translated `check_inputs` (corrections are `i32` values in the source) -/
+theorem accepts_iff_src (z : TimeZone) (hr : Spec.LeapInRange z.leapSeconds) (hc : Proofs.SrcEq.CorrectionsI32 z.leapSeconds) :
+    Src.TimeZoneRef.check_inputs z = .ok () ↔ Spec.WFZone z := by
+  rw [Proofs.SrcEq.check_inputs_eq z hc]; exact accepts_iff z hr
 
 end TzVerif.C13
